@@ -2033,6 +2033,9 @@ func (self *Aof) findRewriteAofFiles() ([]string, error) {
 }
 
 func (self *Aof) loadRewriteAofFiles(aofFilenames []string) (*AofFile, []*AofFile, error) {
+	// a rewrite.aof.tmp left behind by a compaction that died must not be appended to: its records would be duplicated
+	_ = os.Remove(filepath.Join(self.dataDir, "rewrite.aof.tmp"))
+	_ = os.Remove(filepath.Join(self.dataDir, "rewrite.aof.tmp.dat"))
 	rewriteAofFile := NewAofFile(self, filepath.Join(self.dataDir, "rewrite.aof.tmp"), os.O_WRONLY, int(Config.AofFileBufferSize))
 	err := rewriteAofFile.Open()
 	if err != nil {
